@@ -575,3 +575,62 @@ Proof.
     rewrite Hs. cbn [map]. rewrite Hmap. unfold CTE_LOWER. cbn [map]. f_equal.
     apply Bool.orb_true_iff in Ecc as [Ec|Ec]; apply N.eqb_eq in Ec; rewrite Ec; reflexivity.
 Qed.
+
+Definition CT_LOWER : bytes := map to_lower (67%N :: CT_TAIL).   (* "content-type:" *)
+
+Definition ct_named (m : bytes) (b len : nat) (f : nat * nat) : Prop :=
+  snd f <> 0 -> map to_lower (sub m (b + fst f) (length CT_LOWER)) = CT_LOWER /\
+                getfieldlen m (b + fst f) (len - fst f) = Ok (snd f).
+
+Lemma qh_scan_ctn m b len : forall fuel off ct ce h o' ct' ce',
+  qh_scan fuel m b len off ct ce = Ok (h, o', ct', ce') -> ct_named m b len ct -> ct_named m b len ct'.
+Proof.
+  induction fuel as [|fuel IH]; intros off ct ce h o' ct' ce' E Hct; [discriminate|].
+  rewrite qh_scan_S in E.
+  assert (Rec : forall off1 c1 c2, ct_named m b len c1 ->
+            qh_scan fuel m b len off1 c1 c2 = Ok (h, o', ct', ce') -> ct_named m b len ct').
+  { intros off1 c1 c2 H2 E1. apply (IH off1 c1 c2 h o' ct' ce' E1 H2). }
+  destruct (Nat.ltb off len); [|inversion E; subst; exact Hct].
+  destruct (rd m (b + off)) as [c| |] eqn:Erd; cbn [bind] in E; try discriminate.
+  destruct (N.eqb c CR).
+  { cbv zeta in E.
+    destruct (if Nat.ltb (S off) len then do c2 <- rd m (b + S off); Ok (if N.eqb c2 LF then S (S off) else S off) else Ok (S off)) as [off1| |] eqn:Eo; cbn [bind] in E; try discriminate.
+    destruct (Nat.eqb off1 len); [apply (Rec off1 ct ce); auto|].
+    destruct (rd m (b + off1)) as [c3| |]; cbn [bind] in E; try discriminate.
+    destruct (is_eol c3); [|apply (Rec off1 ct ce); auto].
+    inversion E; subst. exact Hct. }
+  destruct (N.eqb c LF).
+  { cbv zeta in E. destruct (Nat.eqb (S off) len); [apply (Rec (S off) ct ce); auto|].
+    destruct (rd m (b + S off)) as [c3| |]; cbn [bind] in E; try discriminate.
+    destruct (is_eol c3); [|apply (Rec (S off) ct ce); auto].
+    inversion E; subst. exact Hct. }
+  match type of E with context [bind ?sk (fun off1 => qh_scan fuel m b len off1 (fst ct, 0) ce)] => set (skip := sk) in E end.
+  cbv zeta in E.
+  assert (D : forall c1 c2, ct_named m b len c1 -> (do off1 <- skip; qh_scan fuel m b len off1 c1 c2) = Ok (h, o', ct', ce') -> ct_named m b len ct').
+  { intros c1 c2 H2 E1. destruct skip as [off1| |]; cbn [bind] in E1; try discriminate. apply (Rec off1 c1 c2); auto. }
+  clearbody skip.
+  assert (Z : forall s, ct_named m b len (s, 0)) by (intros s F; cbn in F; contradiction).
+  destruct (N.eqb c 99 || N.eqb c 67) eqn:Ecc; [|apply (D ct ce); auto].
+  match type of E with context [bind ?x _] => destruct x as [isct| |] eqn:Ect; cbn [bind] in E; try discriminate end.
+  destruct isct.
+  - destruct (getfieldlen m (b + off) (len - off)) as [fl| |] eqn:Egf; cbn [bind] in E; try discriminate.
+    destruct (Nat.eqb fl 0); cbn [negb] in E; [apply (D (fst ct, 0) ce); auto|].
+    destruct (Nat.ltb_spec fl 2); [discriminate|].
+    apply (Rec (off + fl - 2) (off, fl) ce); auto.
+    intros _. cbn [fst snd]. split; [|exact Egf].
+    destruct (Nat.ltb (length CT_TAIL) (len - off)); [|inversion Ect].
+    destruct (casecmp_true m CT_TAIL (b + S off) Ect) as (Hin & Hmap).
+    specialize (Hin ltac:(discriminate)).
+    apply rd_inv in Erd as (Hlt & Hc).
+    assert (Hs : sub m (b + off) (length CT_LOWER) = c :: sub m (b + S off) (length CT_TAIL)).
+    { unfold sub. rewrite (skipn_nth_cons m (b + off) 0%N Hlt). replace (S (b + off)) with (b + S off) by lia.
+      change (length CT_LOWER) with (S (length CT_TAIL)). cbn [firstn]. f_equal. exact (eq_sym Hc). }
+    rewrite Hs. cbn [map]. rewrite Hmap. unfold CT_LOWER. cbn [map]. f_equal.
+    apply Bool.orb_true_iff in Ecc as [Ec|Ec]; apply N.eqb_eq in Ec; rewrite Ec; reflexivity.
+  - match type of E with context [bind ?x _] => destruct x as [iscte| |]; cbn [bind] in E; try discriminate end.
+    destruct iscte; [|apply (D ct ce); auto].
+    destruct (getfieldlen m (b + off) (len - off)) as [fl| |]; cbn [bind] in E; try discriminate.
+    destruct (Nat.eqb fl 0); cbn [negb] in E; [apply (D ct (fst ce, 0)); auto|].
+    destruct (Nat.ltb_spec fl 2); [discriminate|].
+    apply (Rec (off + fl - 2) ct (off, fl)); auto.
+Qed.
